@@ -46,6 +46,7 @@ TStep == /\ l <= Len(TraceLog)
               /\ seen' = seen + (IF m # "" THEN 1 ELSE 0)
          /\ UNCHANGED c
 TSpec == TInit /\ [][TStep]_tvars
+TView == l
 
 Done == (l = Len(TraceLog) + 1) =>
           PrintT("@@J " \o ToJson([kind |-> IF seen = 0 THEN "ACCEPTED" ELSE "REJECTED", events |-> Len(TraceLog), mismatches |-> seen, bad |-> bad]))
